@@ -762,6 +762,13 @@ class BaseSetIndexSortValues(Expr):
         return True
 
     def _divisions(self):
+        divisions = self._partitioning_divisions()
+        if all(d is not None and pd.isna(d) for d in divisions):
+            # No key to derive divisions from (e.g. an empty frame)
+            return (None,) * len(divisions)
+        return divisions
+
+    def _partitioning_divisions(self):
         if "user_divisions" in self._parameters and self.user_divisions is not None:
             return self.user_divisions
         if self._npartitions_input == 1:
@@ -881,7 +888,7 @@ class SetIndex(BaseSetIndexSortValues):
             return SortIndexBlockwise(index_set)
 
         if self.user_divisions is None:
-            divisions = self._divisions()
+            divisions = self._partitioning_divisions()
             if (
                 is_index_like(self._divisions_column._meta)
                 and self.other.divisions == divisions
@@ -1164,7 +1171,7 @@ class SetPartition(SetIndex):
     ]
 
     def _lower(self):
-        divisions = self.other._meta._constructor(self._divisions())
+        divisions = self.other._meta._constructor(self._partitioning_divisions())
         partitions = _SetPartitionsPreSetIndex(self.other, divisions)
         assigned = Assign(self.frame, "_partitions", partitions)
         if isinstance(self._other, Expr):
@@ -1172,7 +1179,7 @@ class SetPartition(SetIndex):
         shuffled = Shuffle(
             assigned,
             "_partitions",
-            npartitions_out=len(self._divisions()) - 1,
+            npartitions_out=len(self._partitioning_divisions()) - 1,
             ignore_index=True,
             method=self.shuffle_method,
             options=self.options,
